@@ -448,7 +448,7 @@ func (w *World) RetainedIntact() string {
 		for i, r := range ps.retained {
 			if string(r.orig) != string(r.copy) {
 				ps.mu.Unlock()
-				return fmt.Sprintf("peer %s: delivered UPDATE %d was modified after delivery: now %x, was %x", name, i, clip(r.orig), clip(r.copy))
+				return fmt.Sprintf("peer %s: slice %d handed to the plugin (UPDATE body / capability value) was modified after delivery: now %x, was %x", name, i, clip(r.orig), clip(r.copy))
 			}
 		}
 		for i := range ps.retained {
@@ -456,7 +456,7 @@ func (w *World) RetainedIntact() string {
 				a, b := ps.retained[i].orig, ps.retained[j].orig
 				if len(a) > 0 && len(b) > 0 && overlap(a, b) {
 					ps.mu.Unlock()
-					return fmt.Sprintf("peer %s: delivered UPDATEs %d and %d share memory", name, i, j)
+					return fmt.Sprintf("peer %s: slices %d and %d handed to the plugin share memory", name, i, j)
 				}
 			}
 		}
@@ -527,7 +527,14 @@ func (p *plugin) GetCapabilities(pc corebgp.PeerConfig) []corebgp.Capability {
 func (p *plugin) OnOpenMessage(pc corebgp.PeerConfig, routerID netip.Addr, caps []corebgp.Capability) *corebgp.Notification {
 	var wc []wire.Cap
 	for _, c := range caps {
-		wc = append(wc, wire.Cap{Code: c.Code, Value: append([]byte(nil), c.Value...)})
+		cp := append([]byte(nil), c.Value...)
+		wc = append(wc, wire.Cap{Code: c.Code, Value: cp})
+		if len(c.Value) > 0 {
+			// keep the slice corebgp handed over: it must not change afterwards
+			p.ps.mu.Lock()
+			p.ps.retained = append(p.ps.retained, retained{orig: c.Value, copy: cp})
+			p.ps.mu.Unlock()
+		}
 	}
 	peer := pc.RemoteAddress.String()
 	p.w.Rec.add(Ev{K: "open+", Peer: peer, N: NonceOf(wc), Caps: wc, ID: routerID.String()})
